@@ -119,10 +119,12 @@ def matcher_agreement(ctx, n):
     diffs = []
     names = ["a", "b", "a.txt", "x.tmp", "d.tmp", "tmp", "cache", "d e.txt", "dxe.txt", "a.log", "c.log", "A", "é", "ascmhl", ".DS_Store", "Thumbs.db", "s", "t"]
     pats = [p for p, _, _ in IGN] + gen.PATTERNS + [".DS_Store", "ascmhl", "ascmhl/", "?", "*", "a*", "*a", "[a-c]", "[!a]"]
+    # anchored patterns (a slash at the beginning or in the middle) and negations
+    pats += ["s/t", "/a", "/a.txt", "A/*.txt", "a/b/", "s/t/", "/tmp/", "*/a", "a/*", "!a.txt", "!*.tmp", "!tmp/", "!s/t", "!a", "!/a", "!x.tmp", "!*"]
     k = 0
     try:
         for _ in range(n):
-            ps = rnd.sample(pats, rnd.randint(1, 3))
+            ps = rnd.sample(pats, rnd.randint(1, 4))
             path = "/".join(rnd.choice(names) for _ in range(rnd.randint(1, 4)))
             exp = pathspec.PathSpec.from_lines("gitwildmatch", ps).match_file(path)
             got = drv.send({"op": "match", "patterns": ps, "path": path})["hit"]
@@ -171,7 +173,7 @@ def run(ctx):
     rc_extra = {"consistency_pairs": ce, "matcher_pairs_checked": mk, "matcher_disagreements": len(md)}
     fails = cf + [{"what": d["what"], "replay": d["replay"], "signature": None} for d in md[:5]] if md else cf
     return _scn.run_scn(ctx, scs, mon, witness_ids=("D10", "D5a"), extra_fails=fails, extra_cov=rc_extra,
-        assumptions=["pattern fragment: base-name literals, base-name globs (* ? [..]) and directory patterns name/; no negation, no anchored patterns", "'matched' = pathspec gitwildmatch on the path relative to the command root"])
+        assumptions=["pattern fragment: literals and globs (* ? [..]) per component, directory patterns name/, patterns anchored by a leading or inner slash, negation (last match wins); no ** and no escapes", "'matched' = pathspec gitwildmatch on the path relative to the command root"])
 
 
 def replay(ctx, path):
